@@ -108,6 +108,11 @@ def run(ctx):
         from ._vid import check_all_nodes_are_vertices
 
         check_all_nodes_are_vertices(ctx, res)
+    with res.guard("G-STALE (shared with C10)"):
+        from ..lints import check_stale_in_loop
+
+        for d_ in ("projections.line_graph", "projections.bipartite_projection"):
+            check_stale_in_loop(ctx, res, d_)
     with res.guard("L-PREFILTER (shared with C10)"):
         from ._vid import check_line_graph_prefilter
 
